@@ -91,6 +91,28 @@ CHECKS = {
          "(entry points, compressed, 8 switch combinations, cosmetic settings, override sizes) is recorded and "
          "TLC checks SettingsVariant against the default conversion of the same input.",
          "TLA+ model checking of the assemble stage + relational trace validation"),
+ "C01": ("exploration", "4.C01",
+         "termination, absence of stuck states and the guards of the failure sites are checked by TLC on the "
+         "pipeline model (liveness under weak fairness); for the code a hostile corpus goes through all five entry "
+         "points in crash-isolated child processes and the trace specification accepts only Return within the "
+         "polynomial envelope and with no growing pass. Exploration level: totality of the code is observed per input.",
+         "TLA+ liveness checking of the pipeline model + crash-isolated exploration with a TLA+ acceptance spec"),
+ "C07": ("model_checking", "4.C07",
+         "Service.tla (threads, lazy tables with once semantics and the real dependency graph) is model-checked by "
+         "TLC over all interleavings; executions of >= 8 fresh processes in different orders, warm repeats and "
+         "1..16 racing threads are recorded (SHA-256 per call, lazy-init begin/end events) and validated by "
+         "ServiceTrace, which infers canon[key] and rejects any differing observation.",
+         "TLA+ model checking of the service/lazy-table model + trace validation of recorded multi-process/thread runs"),
+ "C19": ("model_checking", "4.C19",
+         "Cli.tla enumerates all option subsets x input modes x fault sets (TLC), checks the machine against the "
+         "reference outcome functions and termination; every scenario is replayed against the real binary and the "
+         "trace specification evaluates CliOK / BuildOK with the library's own conversion as reference.",
+         "TLA+ model checking of the CLI protocol machine + TLC scenario replay against the binary + trace validation"),
+ "C20": ("model_checking", "4.C20",
+         "Server.tla (clients x request classes, all interleavings) is model-checked by TLC; one real server process "
+         "is driven by a sequential and 16 concurrent clients with seeded request sequences and the trace "
+         "specification evaluates ExchangeOK on every exchange, final probes and process liveness.",
+         "TLA+ model checking of the server protocol machine + trace validation of recorded HTTP exchanges"),
 }
 
 def main():
@@ -102,7 +124,7 @@ def main():
         hooks = []
     m = {
      "version": 1,
-     "setup_cmd": "cd /verif/harness && cargo build --release --offline",
+     "setup_cmd": "cd /verif && ./check setup",
      "hooks": {
         "guard": "verif-trace (cargo feature of crate svgbob)",
         "enable": "the harness depends on svgbob = { path = \"/repo/crates/svgbob\", features = [\"verif-trace\"] } (harness/Cargo.toml); every check rebuilds it from /repo's working tree",
